@@ -198,7 +198,8 @@ Proof. exact (chainb_spec w t fuel p b). Qed.
 Print Assumptions C14_oracle_sound.
 
 (* tie to the source of this run (tools/gen_validator.py): _verify_sig branch table, fresh default storage,
-   fetch arguments and caught exceptions are the ones the model hard-wires *)
+   fetch arguments and caught exceptions are the ones the model hard-wires; an instance owns nothing but its
+   configuration and its key storage (what overlapping validations share in Model/ValidatorConc.v) *)
 Theorem C14_source_tie :
   (forall w k p, verify_sig w k p = match p_sig p with
                                     | None => Err EAttr
@@ -208,10 +209,11 @@ Theorem C14_source_tie :
    Generated.ValidatorConsts.lvs_default_storage_shared = false) /\
   Generated.ValidatorConsts.fetch_can_be_prefix = false /\
   Generated.ValidatorConsts.fetch_validated_by_next_level = true /\
-  Generated.ValidatorConsts.catches_nothing_else = true.
+  Generated.ValidatorConsts.catches_nothing_else = true /\
+  Generated.ValidatorConsts.instance_state_is_storage_only = true.
 Proof.
   exact (conj verify_sig_generated (conj default_storage_fresh
          (conj (proj1 (proj2 (proj2 fetch_shape))) (conj (proj1 (proj2 (proj2 (proj2 fetch_shape))))
-               (proj2 (proj2 (proj2 (proj2 (proj2 (proj2 (proj2 fetch_shape))))))))))).
+               (conj (proj2 (proj2 (proj2 (proj2 (proj2 (proj2 (proj2 fetch_shape))))))) instance_state))))).
 Qed.
 Print Assumptions C14_source_tie.
